@@ -54,6 +54,14 @@ Theorem C07_load_fail_noop : forall V (hash : bytes -> N) sort (st : strmap V) k
   length kk <> length vv -> load hash sort st kk vv = (st, Err 1%Z).
 Proof. exact load_fail_noop. Qed.
 
+(* ... and so does a load refused because a key is longer than math.MaxUint32 ("key too large"): since
+   the repair of /repo the test is made before anything is reset (it used to return mid-way, after the
+   old content had been dropped).  Together: every LoadFromSlice that returns an error leaves the map as
+   it was *)
+Theorem C07_load_fail_noop_large : forall V (hash : bytes -> N) sort (st : strmap V) kk vv,
+  length kk = length vv -> ~ Forall small kk -> load hash sort st kk vv = (st, Err 2%Z).
+Proof. exact load_fail_noop_large. Qed.
+
 (* loaded from zero keys: every key absent *)
 Theorem C07_get_empty : forall V (hash : bytes -> N) sort, sort_ok sort ->
   forall (st : strmap V) s,
@@ -124,6 +132,11 @@ Proof. exact s2s_load_map_spec. Qed.
 Theorem C07_str2str_load_fail_noop : forall (hash : bytes -> N) sort st kk vv,
   length kk <> length vv -> s2s_load hash sort st kk vv = (st, Err 1%Z).
 Proof. exact s2s_load_fail_noop. Qed.
+
+Theorem C07_str2str_load_fail_noop_large : forall (hash : bytes -> N) sort st (kk vv : list bytes),
+  length kk = length vv -> existsb (fun k : bytes => max_uint32 <? len k) kk = true ->
+  s2s_load hash sort st kk vv = (st, Err 2%Z).
+Proof. exact s2s_load_fail_noop_large. Qed.
 
 Theorem C07_str2str_unloaded : forall (hash : bytes -> N) s,
   s2s_get hash new_s2s s = Ok None /\ s2s_len new_s2s = Ok 0.
